@@ -99,6 +99,17 @@ def style_set(tags):
     return StyleSet([clikit_style(t) for t in tags])
 
 
+def build(cls, tags, use_set=True, **kw):
+    """a formatter that knows `tags`, each supplied the way its `sup` says: "set" (or nothing) in the style set the
+    formatter is constructed with, "added" through add_style() afterwards.  use_set=False: the default style set."""
+    early = [t for t in tags if t.get("sup") != "added"]
+    f = cls(style_set(early), **kw) if use_set else cls(**kw)
+    for t in tags:
+        if t.get("sup") == "added":
+            f.add_style(clikit_style(t))
+    return f
+
+
 # how a rendering is obtained (A. = AnsiFormatter, P. = PlainFormatter, O. = Output; names are kept short: TLC wraps
 # printed tuples at 80 columns and the engine reads FAIL tuples line by line).  Each entry: name -> (decorated?, takes_base_style?, function(markup, tags, base) -> str)
 def _hows():
@@ -129,16 +140,33 @@ def _hows():
             return io.fetch_error()
         return f
 
-    ansi = lambda tags: AnsiFormatter(style_set(tags))  # noqa: E731
-    forced = lambda tags: AnsiFormatter(style_set(tags), forced=True)  # noqa: E731
-    plain = lambda tags: PlainFormatter(style_set(tags))  # noqa: E731
+    def io_late(meth):
+        # the style is added through the I/O's formatter after the I/O exists
+        def f(s, tags, base):
+            io = BufferedIO(formatter=AnsiFormatter(style_set([t for t in tags if t.get("sup") != "added"])))
+            for t in tags:
+                if t.get("sup") == "added":
+                    io.formatter.add_style(clikit_style(t))
+            if meth == "remove_format":
+                return io.remove_format(s)
+            getattr(io, meth)(s)
+            return io.fetch_output() if meth == "write" else io.fetch_error()
+        return f
+
+    ansi = lambda tags: build(AnsiFormatter, tags)  # noqa: E731
+    forced = lambda tags: build(AnsiFormatter, tags, forced=True)  # noqa: E731
+    plain = lambda tags: build(PlainFormatter, tags)  # noqa: E731
     st = lambda base: clikit_style(base[0], tag=False) if base else None  # noqa: E731
+    later = lambda tags: [t for t in tags if t.get("sup") == "added"]  # noqa: E731  (the rest is in the default set)
+    dansi = lambda tags, **kw: build(AnsiFormatter, later(tags), use_set=False, **kw)  # noqa: E731
+    dplain = lambda tags: build(PlainFormatter, later(tags), use_set=False)  # noqa: E731
     dflt = {
-        "dflt A.format": (True, False, lambda s, tags, base: AnsiFormatter().format(s)),
-        "dflt IO.write/forced": (True, False, lambda s, tags, base: io_write(lambda _t: AnsiFormatter(forced=True))(s, tags, base)),
-        "dflt P.format": (False, False, lambda s, tags, base: PlainFormatter().format(s)),
-        "dflt A.rm_format": (False, False, lambda s, tags, base: AnsiFormatter().remove_format(s)),
-        "dflt IO.write": (False, False, lambda s, tags, base: io_write(lambda _t: None)(s, tags, base)),
+        "dflt-A.format": (True, False, lambda s, tags, base: dansi(tags).format(s)),
+        "dflt-IO.write/forced": (True, False, lambda s, tags, base: io_write(lambda t: dansi(t, forced=True))(s, tags, base)),
+        "dflt-P.format": (False, False, lambda s, tags, base: dplain(tags).format(s)),
+        "dflt-A.rm_format": (False, False, lambda s, tags, base: dansi(tags).remove_format(s)),
+        "dflt-IO.write": (False, False, lambda s, tags, base: io_write(dplain)(s, tags, base)),
+        "dflt-IO.write/noansi": (False, False, lambda s, tags, base: io_write(dansi)(s, tags, base)),
     }
     DEFAULT_HOWS.update(dflt)
     return {
@@ -160,6 +188,9 @@ def _hows():
         "O.write/noansi": (False, False, out_write(ansi)),
         "IO.write/plain": (False, False, io_write(plain)),
         "IO.error/plain": (False, False, io_error(plain)),
+        "IO.write/noansi": (False, False, io_late("write")),
+        "IO.error/noansi": (False, False, io_late("error")),
+        "IO.rm_format/ansi": (False, False, io_late("remove_format")),
     }
 
 
@@ -175,7 +206,7 @@ def default_tags():
     for name, st in DefaultStyleSet().styles.items():
         at = [a for a, m in (("bold", "is_bold"), ("dark", "is_dark"), ("italic", "is_italic"), ("underline", "is_underlined"),
                              ("blink", "is_blinking"), ("reverse", "is_inverse"), ("conceal", "is_hidden")) if getattr(st, m)()]
-        out[name] = {"named": True, "name": name, "fg": st.foreground_color or "none", "bg": st.background_color or "none", "at": at}
+        out[name] = {"named": True, "name": name, "sup": "set", "fg": st.foreground_color or "none", "bg": st.background_color or "none", "at": at}
     return out
 
 
@@ -202,22 +233,16 @@ def render_event(msg, base, col, how, extra_tags=()):
 
 
 def way_event(way, style, msg):
-    """(b): the style under test supplied in one of the three ways; rendering through the formatter or an output"""
+    """(b): the style under test supplied in one of the three ways (its `sup` says which of the first two)"""
     from clikit.formatter import AnsiFormatter
 
     tagb = [g["tag"] for g in msg if g["k"] == "open" and g["tag"]["name"] == "tb"]
     ev = {"msg": msg, "base": [style] if way == 3 else [], "col": True, "how": "way%d" % way, "res": "ok", "toks": []}
     try:
-        if way == 1:
-            f = AnsiFormatter(style_set([style] + tagb))
-            r = f.format(markup(msg))
-        elif way == 2:
-            f = AnsiFormatter(style_set(tagb))
-            f.add_style(clikit_style(style))
-            r = f.format(markup(msg))
+        if way in (1, 2):
+            r = build(AnsiFormatter, [style] + tagb).format(markup(msg))
         else:
-            f = AnsiFormatter(style_set(tagb))
-            r = f.format(markup(msg), clikit_style(style, tag=False))
+            r = build(AnsiFormatter, tagb).format(markup(msg), clikit_style(style, tag=False))
         ev["toks"] = tokenise(r)
     except Exception as e:  # noqa
         ev["res"] = type(e).__name__
@@ -291,6 +316,7 @@ def run_markup(ctx, quick):
         ctx.nontriv(("rndmsg", i))
     # messages over the styles registered by default, through formatters / I/Os built without a style set
     dt = default_tags()
+    dt["k9"] = dict(TAGS["tb"], name="k9")  # one more style, added to the default ones after construction
     for i in range(200 if quick else 3000):
         msg = random_message(ctx.rng, ctx.rng.randint(1, 12), balanced=True, names=sorted(dt), table=dt)
         col = ctx.rng.random() < 0.5
@@ -311,12 +337,11 @@ def run_markup(ctx, quick):
 def shared_formatter_trace(msgs):
     from clikit.formatter import AnsiFormatter
 
-    tags = [TAGS["ta"], TAGS["tb"]]
-    f = AnsiFormatter(style_set(tags))
+    f = build(AnsiFormatter, [TAGS["ta"], TAGS["tb"]])
     evs = []
     for k, msg in enumerate(msgs):
         col = k % 2 == 0
-        ev = {"msg": msg, "base": [], "col": col, "how": "shared A." + ("format" if col else "rm_format"), "res": "ok", "toks": []}
+        ev = {"msg": msg, "base": [], "col": col, "how": "shared-A." + ("format" if col else "rm_format"), "res": "ok", "toks": []}
         try:
             ev["toks"] = tokenise(f.format(markup(msg)) if col else f.remove_format(markup(msg)))
         except Exception as e:  # noqa
@@ -328,15 +353,16 @@ def shared_formatter_trace(msgs):
 COLOURS = ["none", "black", "red", "green", "yellow", "blue", "magenta", "cyan", "white", "default", "light_gray", "dark_gray",
            "light_red", "light_green", "light_yellow", "light_blue", "light_magenta", "light_cyan"]
 ATTRS = ["bold", "dark", "italic", "underline", "blink", "reverse", "conceal"]
-TAGS = {"ta": {"named": True, "name": "ta", "fg": "green", "bg": "none", "at": []},
-        "tb": {"named": True, "name": "tb", "fg": "none", "bg": "blue", "at": ["bold", "underline"]}}
+TAGS = {"ta": {"named": True, "name": "ta", "sup": "set", "fg": "green", "bg": "none", "at": []},
+        "tb": {"named": True, "name": "tb", "sup": "added", "fg": "none", "bg": "blue", "at": ["bold", "underline"]}}
 
 
 def random_style(rng, named, name):
     at = [a for a in ATTRS if rng.random() < 0.3]
     if not named:
         rng.shuffle(at)
-    st = {"named": named, "name": name, "fg": rng.choice(COLOURS), "bg": rng.choice(COLOURS), "at": at}
+    sup = rng.choice(["set", "added"]) if named and name else ""
+    st = {"named": named, "name": name, "sup": sup, "fg": rng.choice(COLOURS), "bg": rng.choice(COLOURS), "at": at}
     if not named and st["fg"] == "none" and st["bg"] == "none" and not at:
         st["fg"] = "red"  # an inline tag needs a body
     return st
